@@ -212,7 +212,12 @@ def WS.step (s : WS) : Op (Option Nat) → WS × Out Nat × List SCb
     match e with
     | some k =>
       match s.alive k with
-      | some ent => (s.setEnt k (some { ent with shared := setShared ent.shared sid v }), .ok, [])
+      | some ent =>
+        -- the entity goes through an archetype lookup: its component set is closed under the dependencies declared so far
+        let before := compSet ent
+        let after := closed s.deps before
+        (s.setEnt k (some { comps := rebuild info ent.comps after [], shared := setShared ent.shared sid v }), .ok,
+         cbDiff info k before after)
       | none => (s, .ok, [])
     | none => (s, .ok, [])
   | .sremove e sid =>
@@ -221,7 +226,10 @@ def WS.step (s : WS) : Op (Option Nat) → WS × Out Nat × List SCb
       match s.alive k with
       | some ent =>
         if ent.shared.any (·.1 == sid) then
-          (s.setEnt k (some { ent with shared := ent.shared.filter (·.1 != sid) }), .ret true, [])
+          let before := compSet ent
+          let after := closed s.deps before
+          (s.setEnt k (some { comps := rebuild info ent.comps after [], shared := ent.shared.filter (·.1 != sid) }), .ret true,
+           cbDiff info k before after)
         else (s, .ret false, [])
       | none => (s, .ret false, [])
     | none => (s, .ret false, [])
